@@ -279,9 +279,9 @@ MANIFEST_TEXT["C08"] = {
     "technique": "Lean 4 invariant + refinement proof + differential operation histories"}
 
 MANIFEST_TEXT.update({
-    "C01": {"text": "Proof: (a) arith_correct / cmp_correct / goCmpInt_exact: the code's arithmetic and comparison primitives equal the reference semantics for all operand values of all kinds (64-bit wrapping, float promotion, exact integer comparison, string concat, errors for ill-typed operands and zero divisors); (b) lowerX_correct: the interpreter on the AST shape the listener builds computes the reference meaning of every well-formed expression tree in every environment. Differential runs (random trees, kind x kind x operator matrix with boundary values, @-constants) tie model, listener shape and primitives to the code.",
+    "C01": {"text": "Proof: (a) arith_correct / cmp_correct / goCmpInt_exact: the code's arithmetic and comparison primitives equal the reference semantics for all operand values of all kinds (64-bit wrapping, float promotion, exact integer comparison, string concat, errors for ill-typed operands and zero divisors); (b) lowerX_correct: the interpreter on the AST shape the listener builds computes the reference meaning of every well-formed expression tree in every environment, for arbitrary primitives; (c) C01_end_to_end / C01_interpreter_reference: on every well-kinded environment the meaning with the code's primitives and with the reference primitives agree - same environment afterwards, same value, or both fail - by mutual induction over trees with well-kindedness as an invariant of the data layer (getValue / element reads / conversions / stores / the function library preserve it). Differential runs (random trees, kind x kind x operator matrix with boundary values, @-constants) tie model, listener shape and primitives to the code.",
             "note": EVAL_NOTE, "technique": "Lean 4 proof (value-level equalities + structural induction over expression trees) + differential runs incl. listener-shape comparison"},
-    "C02": {"text": "Proof: rule_refines: for every well-formed statement program, environment and primitives, RuleEntity.Execute's model on the listener's AST equals the reference meaning (source order, first true branch, for/forRange, break/continue innermost, return from any depth, compound assignment, flat locals); clause theorems read each sentence off the reference semantics (loops absorb break/continue, forRange visits each key once, step after continue). Differential runs on random statement programs compare value, host state and observer trace.",
+    "C02": {"text": "Proof: C02_end_to_end (for the recover sites and loop bound regenerated from the source): executing a rule - interpreter with the code's own primitives on the AST the listener builds - ends in the same environment (host state, observer trace) with the same outcome, return flag and value as the reference semantics with reference primitives, for every well-formed program with well-kinded literals and every well-kinded environment (the driver checks these hypotheses on every generated case with a proved-sound executable test). It composes rule_refines: for every well-formed statement program, environment and primitives, RuleEntity.Execute's model on the listener's AST equals the reference meaning (source order, first true branch, for/forRange, break/continue innermost, return from any depth, compound assignment, flat locals); clause theorems read each sentence off the reference semantics (loops absorb break/continue, forRange visits each key once, step after continue). Differential runs on random statement programs compare value, host state and observer trace.",
             "note": EVAL_NOTE, "technique": "Lean 4 refinement proof (mutual structural induction) + clause theorems + differential runs"},
     "C03": {"text": "Proof: theorems over the data-layer model: injected names win for reads and writes, writes leave every other object and every other field untouched, field writes store the converted value, conversions within and across numeric classes, narrowing preserves representable values, arguments positional and converted, missing map key reads zero. Differential runs compare host-visible state after every rule over structs, pointers, maps, slices, arrays, functions and methods.",
             "note": EVAL_NOTE, "technique": "Lean 4 proofs over the store model + differential state comparison"},
@@ -291,7 +291,7 @@ MANIFEST_TEXT.update({
     "C18": {"text": "Proof: (1) the reference meaning of a conc block runs every child exactly once and fails, after all children, iff one failed, with the first error (C18_all_children_run, C18_child_error_fails_block, C18_all_ok), tied to the interpreter by rule_refines; (2) join: the fan-out is the one-stage instance of the WaitGroup transition system: in every interleaving Wait is passed only after every child started and ended exactly once (C18_join, C18_no_early_pass). Differential runs with delayed observer children, failing children and statements reading the block's writes.",
             "note": EVAL_NOTE + " The WaitGroup LTS is hand-written from ConcStatement.Evaluate (Add(n); n goroutines ending in Done; Wait) and tied by the trace comparison; lock discipline of lockVars is exercised (hang detection), not proved.",
             "technique": "Lean 4 proofs (induction over children + LTS invariant) + differential runs"},
-    "C20": {"text": "Proof: lowering copies each construct's line into its AST node; the reference semantics cites the failing construct's own line for arithmetic, comparison, logic, call and assignment faults and keeps the innermost citation; rule_refines / lowerX_correct carry this to the interpreter. Differential runs over multi-line renderings compare the line the real error cites with the failing construct's line in the reference tree, and the positions the listener recorded with the lowering (shape-pos).",
+    "C20": {"text": "Proof: C20_cited_line_is_a_construct / C20_interpreter_cites: whenever the error of a failed rule cites a line, that line is the line of a construct of the rule (mutual induction over expressions, arguments, assignments, statements, loops, conc blocks; for every program, environment and primitives), also for the interpreter on the listener's AST; lowering copies each construct's line into its AST node; the reference semantics cites the failing construct's own line for arithmetic, comparison, logic, call and assignment faults and keeps the innermost citation; rule_refines / lowerX_correct carry this to the interpreter. Differential runs over multi-line renderings compare the line the real error cites with the failing construct's line in the reference tree, and the positions the listener recorded with the lowering (shape-pos).",
             "note": EVAL_NOTE, "technique": "Lean 4 proofs over reference semantics + differential cited-line and position comparison"},
 })
 MANIFEST_TEXT["C10"] = {
